@@ -359,7 +359,7 @@ def states(draw, spec, zero_bias=False, negative=False, finite_only=False, allow
         def ctl(lo, hi, specials=()):
             x = draw(fl(lo, hi, specials))
             if negative and draw(st.integers(0, 2)) == 0:
-                x = -draw(fl(0, hi if math.isfinite(hi) else 1.0))  # inadmissible controls / disturbances too ("all inputs")
+                x = -draw(pos(1e-3 * hi, hi))  # strictly negative: inadmissible controls / disturbances too ("all inputs")
             return x
 
         s = dict(w=[val(0, 500)], d=[ctl(0, 8000)])
